@@ -108,6 +108,107 @@ def narrow_tables(ctx):
         shutil.rmtree(tmp, ignore_errors=True)
 
 
+def geometry_names_leg(ctx):
+    """get_all_geometry_names / select_variables / drop_geometry against Model.GeomNames: which variables are the geometry, and
+    which variables a subset holds, for datasets of every convention with depth and time coordinates and extra variables."""
+    import props.c12 as c12
+    rng = ctx.rng
+    n_ds = 30 if ctx.tier == 'quick' else 200
+    exprs, plans = [], []
+    SHOC_NAMES = [('x_centre', 'y_centre'), ('x_grid', 'y_grid'), ('x_left', 'y_left'), ('x_back', 'y_back')]
+    for n in range(n_ds):
+        fam = gen.FAMILIES[n % len(gen.FAMILIES)]
+        if n % 2 == 0:
+            d, ds, _specs, _variables, _tname = c12.make_dataset(rng, fam)          # with depth and time coordinates
+        else:
+            d = gen.any_dataset(rng, fam)
+            ds = d.ds
+            gen.add_data_vars(rng, ds, d.spec['kinds'], names_prefix='gv')
+        with warnings.catch_warnings():
+            warnings.simplefilter('ignore')
+            ems = ds.ems
+            vnames = [str(v) for v in ds.variables]
+            vid = {v: i for i, v in enumerate(vnames)}
+            got_geom = attempt(lambda: [vid[str(x)] for x in ems.get_all_geometry_names()])
+            depth_ids = [vid[str(c.name)] for c in ems.depth_coordinates]
+            try:
+                time_id = vid[str(ems.time_coordinate.name)]
+            except Exception:      # noqa: BLE001
+                time_id = None
+
+        def oid(name):
+            return 'None' if name is None else f'(Some {vid.get(str(name), 9000)})'
+
+        def bounds_of(v):
+            return ds[v].attrs.get('bounds', ds[v].encoding.get('bounds'))
+        if d.family in ('cf1d', 'cf2d', 'shoc_simple'):
+            lonname, latname = d.spec['lonname'], d.spec['latname']
+            glit = f'(grid_names {vid[lonname]} {vid[latname]} {oid(bounds_of(lonname))} {oid(bounds_of(latname))} {to_coq(list(range(len(vnames))))})'
+        elif d.family == 'shoc_standard':
+            glit = '(arakawa_names ' + ' '.join(f'({vid[x]}, {vid[y]})' for x, y in SHOC_NAMES) + ')'
+        else:
+            mv = next(v for v in vnames if ds[v].attrs.get('cf_role') == 'mesh_topology')
+            a = ds[mv].attrs
+
+            def table(role):
+                nm = a.get(role)
+                return nm if nm is not None and nm in vid else None
+
+            def coord(role, k):
+                parts = str(a.get(role, '')).split()
+                return parts[k] if len(parts) == 2 and all(x in vid for x in parts) else None
+            nx_, ny_ = str(a['node_coordinates']).split()
+            glit = ('{| m_var := %d; m_face_node := %d; m_node_x := %d; m_node_y := %d; m_face_edge := %s; m_face_face := %s; '
+                    'm_edge_node := %s; m_edge_face := %s; m_edge_x := %s; m_edge_y := %s; m_face_x := %s; m_face_y := %s |}' % (
+                        vid[mv], vid[a['face_node_connectivity']], vid[nx_], vid[ny_], oid(table('face_edge_connectivity')),
+                        oid(table('face_face_connectivity')), oid(table('edge_node_connectivity')), oid(table('edge_face_connectivity')),
+                        oid(coord('edge_coordinates', 0)), oid(coord('edge_coordinates', 1)), oid(coord('face_coordinates', 0)),
+                        oid(coord('face_coordinates', 1))))
+            glit = f'(ugrid_names {glit})'
+        geom_set = set(got_geom[1]) if got_geom[0] == 'ok' else set()
+        others = [v for v in vnames if vid[v] not in geom_set and vid[v] not in depth_ids and vid[v] != time_id]
+        chosen = rng.sample(others, min(len(others), rng.randint(0, 3)))
+        unknown = n % 7 == 3
+        ask = chosen + (['not_in_this_dataset'] if unknown else [])
+        as_arrays = n % 3 == 1 and not unknown
+        case = {'dataset': d.spec['label'], 'variables': vnames, 'asked for': ask, 'given as': 'arrays' if as_arrays else 'names'}
+        with warnings.catch_warnings():
+            warnings.simplefilter('ignore')
+            r = attempt(lambda: ems.select_variables([ds[v] for v in ask] if as_arrays else ask))
+            got_sel = Some([vid[str(v)] for v in r[1].variables]) if r[0] == 'ok' else None
+            got_drop = None
+            if r[0] == 'ok':
+                r2 = attempt(lambda: [vid[str(v)] for v in r[1].ems.drop_geometry().variables])
+                got_drop = r2[1] if r2[0] == 'ok' else ('err', r2[1])
+                # the subset's own geometry names are the dataset's
+                r3 = attempt(lambda: [vid[str(x)] for x in r[1].ems.get_all_geometry_names()])
+                if got_geom[0] == 'ok' and r3 != got_geom:
+                    ctx.report('property', f'the subset made by select_variables({ask}) names the geometry variables {r3}, the dataset '
+                               f'{got_geom} (numbered in dataset order)', case)
+        ctx.count(f'geometry_names:{d.family}:asked={len(chosen)}{"+unknown" if unknown else ""}')
+        ctx.case((d.spec['label'], 'geometry names', tuple(ask)), bool(chosen))
+        chosen_lit = to_coq([vid.get(v, 9999) for v in ask])
+        exprs.append(f'(let vars := {to_coq(list(range(len(vnames))))} in let geom := {glit} in (geom, '
+                     f'match select_variables vars {chosen_lit} geom {to_coq(depth_ids)} {oid(None) if time_id is None else f"(Some {time_id})"} with '
+                     f'Some out => Some (out, drop_geometry out geom) | None => None end))')
+        plans.append((case, got_geom, got_sel, got_drop))
+    model = coq_eval_sharded(['Model.GeomNames'], exprs, shard=15, workers=6)
+    ctx.leg('geometry_name_cases', len(exprs))
+    for (case, got_geom, got_sel, got_drop), (m_geom, m_sel) in zip(plans, model):
+        want_geom = ('ok', [int(x) for x in m_geom])
+        if want_geom != got_geom:
+            ctx.report('correspondence', f'model GeomNames geometry names {want_geom}, get_all_geometry_names {got_geom} (variables numbered in '
+                       f'dataset order)', case, found_input=False)
+            continue
+        want_sel = None if m_sel is None else Some([int(x) for x in m_sel.v[0]])
+        if want_sel != got_sel:
+            ctx.report('correspondence', f'model GeomNames.select_variables {want_sel}, implementation {got_sel}', case, found_input=False)
+            continue
+        if m_sel is not None and [int(x) for x in m_sel.v[1]] != got_drop:
+            ctx.report('correspondence', f'model GeomNames.drop_geometry of the subset {[int(x) for x in m_sel.v[1]]}, implementation {got_drop}',
+                       case, found_input=False)
+
+
 def run(ctx):
     rng = ctx.rng
     quick = ctx.tier == 'quick'
@@ -405,3 +506,4 @@ def run(ctx):
                            found_input=False)
     finally:
         shutil.rmtree(tmp, ignore_errors=True)
+    geometry_names_leg(ctx)
